@@ -35,7 +35,7 @@ F3_SIG = "parallel_add/fill_queue_process.start/items=generator/TypeError:cannot
 def judge(res, ref, items, label):
     if res["error"] is not None:
         return [f"{label}: parallel_add did not return a result: {res['error'][0]}: {res['error'][1]}"]
-    total = sum(i["ret"] for i in items)
+    total = sum(int(i["ret"]) for i in items)
     return [f"{label}: {p}" for p in
             P.check_outcome(ref, res["outcome"], res["objects"], items, items, total)]
 
